@@ -561,3 +561,82 @@ def malformed_inputs(kind, rng, tier):
                 if emit(u):
                     out.append(u)
     return out
+
+
+# ---------------------------------------------------------------- block-wise shapes
+# A word-at-a-time / SIMD-style rewrite of a pass goes wrong at a particular offset inside a block, in a
+# particular block, or only when a whole block is "interesting".  These generators put the interesting unit
+# at every offset of otherwise-ASCII text (so every offset modulo 8 and 16, in the first / a middle / the
+# last block and in the scalar tail), and build fully non-ASCII blocks of the usual block lengths.
+BLOCK_LENS_FULL = (7, 8, 9, 15, 16, 17, 31, 32, 33)
+WIDE = (0xE9, 0x20AC, 0x1F600)          # 2-, 3-, 4-byte scalars (UTF-16: 1, 1, 2 units)
+
+
+def block_scalars():
+    """well-formed scalar sequences (C01; also fed to C02/C03 as well-formed input)"""
+    out = []
+    for k in range(40):
+        for v in WIDE:
+            s = [0x61 + (i % 26) for i in range(40)]
+            s[k] = v
+            out.append(s)
+    for n in (63, 64, 65):
+        for k in sorted(set([0, 7, 8, 15, 16, 31, 32, 47, 48, 55, 56, 57, n - 9, n - 8, n - 2, n - 1])):
+            for v in (WIDE[k % 3], 0x80, 0x10FFFF)[:2]:
+                s = [0x41 + (i % 26) for i in range(n)]
+                s[k] = v
+                out.append(s)
+    for n in BLOCK_LENS_FULL:
+        for v in WIDE + (0x7FF, 0xFFFF, 0x10000):
+            out.append([v] * n)
+        out.append([WIDE[i % 3] for i in range(n)])
+    for n in (8, 16, 24, 32, 40, 64):          # exact multiples: no scalar tail after the last block
+        out.append([0x61] * n)
+        out.append([0x61] * (n - 1) + [0x1F600])
+        out.append([0xE9] + [0x61] * (n - 1))
+    return out
+
+
+def block_latin1():
+    """Latin-1 byte strings: one byte >= 0x80 at every offset of a 40-byte string, all-high strings"""
+    out = []
+    for k in range(40):
+        for v in (0x80, 0xFF, 0xE9)[: 2 if k % 2 else 3]:
+            s = [0x61 + (i % 26) for i in range(40)]
+            s[k] = v
+            out.append(s)
+    for n in BLOCK_LENS_FULL + (39, 40, 41, 63, 64, 65):
+        out.append([0x80 + ((i * 37) % 128) for i in range(n)])
+        out.append([0xFF] * n)
+        out.append([0x61] * n)
+    for n in (63, 64, 65):
+        for k in (0, 7, 8, 31, 32, 55, 56, n - 8, n - 1):
+            s = [0x41] * n
+            s[k] = 0xC0 + (k % 64)
+            out.append(s)
+    return out
+
+
+def block_malformed(kind):
+    """a malformed unit at every offset of 40 units of ASCII; truncated forms at the end of block-length text"""
+    out = []
+    if kind == '8':
+        bads = ([0x80], [0xC3], [0xF8], [0xE2, 0x82], [0xF0, 0x9F, 0x98], [0xED, 0xA0, 0x80], [0xF4, 0x90, 0x80, 0x80])
+    elif kind == '16':
+        bads = ([0xD800], [0xDC00], [0xDFFF, 0xD800])
+    else:
+        bads = ([0x110000], [0xFFFFFFFF], [0x400001], [0xD800])
+    for k in range(40):
+        for bi, bad in enumerate(bads):
+            if bi >= 3 and k % 3:
+                continue
+            s = [0x61 + (i % 26) for i in range(40)]
+            out.append(s[:k] + bad + s[k + 1:])
+    for n in (8, 16, 24, 32, 40, 64):
+        for bad in bads:
+            out.append([0x61] * (n - len(bad)) + bad)          # the form ends exactly at the end of the input
+            out.append([0x61] * n + bad[:1])                   # ... one unit into the next block
+    for n in (8, 16, 32):
+        for bad in bads[:3]:
+            out.append((bad * n)[:n])
+    return out
